@@ -47,6 +47,9 @@ WorldsStatic ==
      listed \in {<<>>, <<Nm("n1", "a")>>, <<Nm("n1", "b"), Nm("n2", "a")>>}}
   \cup {Wd(<<io>>, "static", cls, <<Nm("n1", "a"), io>>, <<Nf("n1", "a", FALSE)>>) :
      io \in {Nm("i1", "b"), Nm("i2", "a")}, cls \in StaticCls}
+  \* listings written with leading / trailing slashes
+  \cup {Wd(<<Nm("i1", "a")>>, "static", cls, <<Nm("n1", "s"), Nm("i1", "s")>>,
+           <<Nf("n1", "a", FALSE)>>) : cls \in StaticCls}
 WorldsAll == WorldsProv \cup WorldsNone \cup WorldsStatic
 WorldsSmall ==
   {Wd(<<Nm("i2", "a")>>, "prov", <<"CIM">>, <<>>, <<Nf("n1", "a", FALSE), Nf("n2", "b", TRUE)>>),
@@ -70,7 +73,8 @@ ViewOf(wd, sv, cl) ==
 
 Init == /\ w \in WorldU
         /\ v = Server0(w) /\ c = Client0
-        /\ s = StateOfWorld(w) /\ bad = {} /\ hist = <<>>
+        /\ s = StateOfWorld(w) /\ bad = {}
+        /\ hist = IF GenDepth > 0 THEN <<[op |-> "world", w |-> w]>> ELSE <<>>
 
 Step(e, v2, c2, call) ==
   /\ bad' = Fails(s, e)
@@ -130,5 +134,5 @@ ReqWellFormed == WellFormed(s)
 MappingHolds == s.ns = v.ns /\ s.full = v.full
 (* the caches are in step with the server whenever they are determined *)
 CacheInStep == (w.nskind = "prov" /\ c.nsdet) => Ids(c.nss) = Ids(v.ns)
-GenConstraint == GenDepth = 0 \/ Len(hist) <= GenDepth
+GenConstraint == GenDepth = 0 \/ Len(hist) <= GenDepth + 1
 =============================================================================
